@@ -48,7 +48,7 @@ for pid, res in SEL.items():
     assert sel, pid
     pkgs = sorted({k.split(".")[0] + "." for k in sel})
     # the non-function declarations (types, constants, variable initialisers) of every package touched
-    sel += [k for k in keys if "<decls>" in k and k.split(".")[0] + "." in pkgs and k not in sel]
+    sel += [k for k in keys if ("<decls>" in k or "<asm>" in k) and k.split(".")[0] + "." in pkgs and k not in sel]
     with open(os.path.join(LEAN, "I3", "Props", pid + "Pin.lean"), "w") as f:
         f.write(f"/-\n  I3.Props.{pid} (source pin) — the Go functions mirrored by the hand-written models of {pid} still have the\n"
                 f"  source text against which those models were validated, and no function was added to or removed\n"
